@@ -46,7 +46,7 @@ func runGotests(r *common.Run, scratch string, facs []adapters.Factory, stats ma
 			gfacs = append(gfacs, f)
 		}
 	}
-	runsPer := r.Pick(4, 24)
+	runsPer := r.Pick(3, 24)
 	type ran struct {
 		seed int64
 		sim  *adapters.Sim
